@@ -16,7 +16,7 @@
 
    Outside the model (returns None): F = 0 frames; size-1 broadcasting between dt/gyro/acc/rot
    (they must have the same B and F); per-call gyro_cov/acc_cov/init_state arguments. *)
-From Coq Require Import ZArith QArith List Bool.
+From Coq Require Import ZArith QArith Qabs List Bool.
 From Bignums Require Import BigZ.
 Import ListNotations.
 From PV Require Import Base.Num Base.Mat Model.Cumops Model.LieGroup.
